@@ -15,7 +15,7 @@ if d.get("argv"):
     build_impl(release=False, cli=True)
     argv = [sfs_path()] + d["argv"][1:]
     stdin = bytes.fromhex(d["stdin_hex"]) if d.get("stdin_hex") else (d.get("stdin", "").encode())
-    if d.get("first_write"):
+    if d.get("first_write") and str(d.get("first_write")) != "None":
         # stdin as a pipe whose first write carries only the first bytes
         import time
         fw = int(d["first_write"])
@@ -31,6 +31,11 @@ if d.get("argv"):
             p.stdout, p.stderr = b"", b""
         p.returncode = q.returncode
         print("stdin delivered as a first write of %d bytes, then the rest" % fw)
+    elif d.get("cpus") and str(d.get("cpus")) != "None":
+        import os
+        cp = set(sorted(os.sched_getaffinity(0))[:int(d["cpus"])])
+        print("process confined to %d cpu(s)" % len(cp))
+        p = subprocess.run(argv, input=stdin, capture_output=True, preexec_fn=lambda: os.sched_setaffinity(0, cp))
     else:
         p = subprocess.run(argv, input=stdin, capture_output=True)
     print("argv:", argv)
